@@ -103,3 +103,8 @@ prop('C14', rules=['rows', 'rowtags'], take=['C14.rows-exec', 'C14.rows', 'C14.p
 prop('C18', rules=['casts', 'plans', 'queues'], take=['C18.cast', 'C01.plan', 'C04.target'],
      floors={'cell-cast:back': 1, 'cell-cast:back11': 1, 'plan-table:back': 1, 'plan-table:back11': 1, 'stored-callable:back:MSGQ': 1, 'stored-callable:back11:MSGQ': 1},
      explanation='Event matching: for every instantiated back/back11 runtime-speed dispatch table the candidates installed per state equal the rows allowed by "same type, public base, or Kleene" in table priority order, recomputed from the front-end declarations (C01.plan); no executor is called through a cell signature with a different event class unless the trigger is on the primary-base chain of the event (C18.cast); queued / deferred events are stored by value (C04.target). Payload through user conversions is not decided.')
+
+prop('C20', rules=['poly', 'queues', 'copymp11'], take=['C20.poly', 'C20.erasure', 'C20.cb', 'C04.queue-ops', 'C04.erase', 'C04.dequeue', 'C04.target', 'C15.pool'], static=[rules_types.poly_static],
+     floors={'poly:copy_ctor': 1, 'poly:copy_assign': 1, 'poly:move_ctor': 1, 'poly:move_assign': 1, 'poly:dtor': 1, 'poly:value-ctor': 1, 'poly:destroy': 1, 'cb:move': 1, 'cb:copy': 1, 'cb:destroy': 1,
+             'pool-layout:deferred_event': 1, 'erasure:exit-forwarder': 1, 'erase-site:do_process_event_pool': 1, 'tl-poly-asserts': 15},
+     explanation='Stored events: basic_polymorphic_base assignments test self-assignment, destroy the held object, take the control block and copy / move, in this order; constructors take the control block then copy / move; the destructor destroys once; the value constructors store into buffer or heap in agreement with the control block they select; control_block::move nulls a stolen heap pointer, destroy is null-tolerant; event_occurrence is the first base of pooled classes; the exit-point forwarder reads the type it is handed; pool erase only after marked_for_deletion; queue elements store the event by value; inline / heap selection over a size x alignment x nothrow-move matrix and the control-block capacity are asserted at compile time (C20.cb). Absence of use-after-free over operation histories is not decided.')
